@@ -961,3 +961,81 @@ Proof.
   exists [NInt 0; NFloat (1 # 2); NInt 1; NFloat (3 # 4)].
   split; [discriminate|]. split; reflexivity.
 Qed.
+
+(* ========================================================================================== *)
+(* 7. the estimate as a function of its inputs: homogeneity, special cases                     *)
+(* ========================================================================================== *)
+Lemma nth_map_Qmult c : forall (l : list Q) t, nth t (map (Qmult c) l) 0 == c * nth t l 0.
+Proof. induction l as [|x l IH]; intros [|t]; cbn [map nth]; try ring. apply IH. Qed.
+
+Lemma adv_def_scale g l c r v d : forall n t,
+  adv_def g l (fun i => c * r i) (fun i => c * v i) d n t == c * adv_def g l r v d n t.
+Proof. induction n as [|n IH]; intros t; cbn [adv_def]; [ring|]. rewrite IH. ring. Qed.
+
+(* scaling rewards, values and the bootstrap value by c scales every estimate by c: nothing in the recursion clips,
+   normalises or depends on the magnitude *)
+Lemma gae_scale_lemma g l c rs vs ds nv nd t :
+  length rs = length vs -> length rs = length ds ->
+  nth t (advs_of (gae_col g l (map (Qmult c) rs) (map (Qmult c) vs) ds (c * nv) nd)) 0 ==
+  c * nth t (advs_of (gae_col g l rs vs ds nv nd)) 0.
+Proof.
+  intros L1 L2.
+  rewrite gae_is_def_lemma by (rewrite !map_length; assumption).
+  rewrite (gae_is_def_lemma g l rs vs ds nv nd t L1 L2).
+  rewrite map_length. rewrite <- adv_def_scale.
+  apply adv_def_ext; intros i _; [apply nth_map_Qmult| |reflexivity].
+  unfold ext. rewrite <- nth_map_Qmult. rewrite map_app. reflexivity.
+Qed.
+
+(* lambda = 0: the estimate is the one-step TD error *)
+Lemma gae_lambda0_lemma g rs vs ds nv nd t :
+  length rs = length vs -> length rs = length ds -> (t < length rs)%nat ->
+  nth t (advs_of (gae_col g 0 rs vs ds nv nd)) 0 ==
+  nth t rs 0 + g * ext vs nv (S t) * (1 - ext ds nd (S t)) - ext vs nv t.
+Proof.
+  intros L1 L2 Ht. rewrite gae_is_def_lemma by assumption.
+  replace (length rs - t)%nat with (S (length rs - S t)) by lia. cbn [adv_def]. ring.
+Qed.
+
+(* an episode end after every step: the estimate is r_t - V_t, nothing is bootstrapped *)
+Lemma gae_all_done_lemma g l rs vs ds nv nd t :
+  length rs = length vs -> length rs = length ds -> (t < length rs)%nat ->
+  ext ds nd (S t) == 1 ->
+  nth t (advs_of (gae_col g l rs vs ds nv nd)) 0 == nth t rs 0 - ext vs nv t.
+Proof.
+  intros L1 L2 Ht B. rewrite gae_is_def_lemma by assumption.
+  replace (length rs - t)%nat with (S (length rs - S t)) by lia. cbn [adv_def]. rewrite B. ring.
+Qed.
+
+(* gamma = lambda = 1 and no episode end: the estimate is the Monte-Carlo return bootstrapped at the end, minus V_t *)
+Fixpoint rsum (r : nat -> Q) (n t : nat) : Q := match n with O => 0 | S n' => r t + rsum r n' (S t) end.
+
+Lemma adv_def_mc r v d : (forall i, d i == 0) -> forall n t,
+  adv_def 1 1 r v d n t == rsum r n t + (match n with O => 0 | S _ => v (t + n)%nat - v t end).
+Proof.
+  intros Hd. induction n as [|n IH]; intros t; cbn [adv_def rsum]; [ring|].
+  rewrite (Hd (S t)), IH. destruct n as [|n].
+  - cbn [rsum]. replace (t + 1)%nat with (S t) by lia. ring.
+  - replace (S t + S n)%nat with (t + S (S n))%nat by lia. ring.
+Qed.
+
+Lemma ext_zero : forall ds nd, Forall (fun x => x == 0) ds -> nd == 0 -> forall i, ext ds nd i == 0.
+Proof.
+  unfold ext. induction ds as [|x ds IH]; intros nd H Hn i.
+  - destruct i as [|[|i]]; cbn; auto; reflexivity.
+  - pose proof (Forall_inv H) as Hx. cbn beta in Hx. destruct i; cbn [app nth]; [exact Hx|].
+    apply IH; [eapply Forall_inv_tail; exact H|exact Hn].
+Qed.
+
+Lemma gae_monte_carlo_lemma rs vs ds nv nd t :
+  length rs = length vs -> length rs = length ds -> (t < length rs)%nat ->
+  Forall (fun x => x == 0) ds -> nd == 0 ->
+  nth t (advs_of (gae_col 1 1 rs vs ds nv nd)) 0 ==
+  rsum (fun i => nth i rs 0) (length rs - t) t + nv - nth t vs 0.
+Proof.
+  intros L1 L2 Ht Hd Hn. rewrite gae_is_def_lemma by assumption.
+  rewrite adv_def_mc by (apply ext_zero; assumption).
+  replace (length rs - t)%nat with (S (length rs - S t)) by lia.
+  replace (t + S (length rs - S t))%nat with (length vs) by lia.
+  unfold ext. rewrite app_nth2, Nat.sub_diag by lia. rewrite app_nth1 by lia. cbn [nth]. ring.
+Qed.
